@@ -319,17 +319,24 @@ static std::string permstr(const std::vector<int>& p)
 }
 
 // solve the LP that the accessors of s report with a newly constructed solver: with default settings (tag "f") and
-// with the settings of s (tag "g"), and without scaler and simplifier (tag "p")
+// with the settings of s (tag "g"), without scaler and simplifier (tag "p"), and without scaler and simplifier but in the
+// representation of s (tag "q": the configuration a warm-started solve of s runs in)
 static std::string freshSolve(SP& s, int mode, const char* tag)
 {
    SP f;
    quiet(f);
 
-   if(mode == 2)
+   if(mode == 2 || mode == 3)
    {
       // plain: neither scaling nor presolving
       f.setIntParam(SP::SCALER, SP::SCALER_OFF);
       f.setIntParam(SP::SIMPLIFIER, SP::SIMPLIFIER_OFF);
+   }
+
+   if(mode == 3)
+   {
+      // what a warm-started solve of s runs: no scaler, no simplifier, the representation of s
+      f.setIntParam(SP::REPRESENTATION, s.intParam(SP::REPRESENTATION));
    }
 
    if(mode == 1)
@@ -589,7 +596,7 @@ static void runCases(const char* file)
             int st = (int)s->optimize();
             std::ostringstream o;
             o << " ost=" << st << " oobj=" << dy(s->objValueReal()) << " " << freshSolve(*s, 0, "f") << " "
-              << freshSolve(*s, 1, "g") << " " << freshSolve(*s, 2, "p");
+              << freshSolve(*s, 1, "g") << " " << freshSolve(*s, 2, "p") << " " << freshSolve(*s, 3, "q");
             add = o.str();
          }
          else if(op == "GB")
